@@ -396,6 +396,19 @@ func (e *Engine) runUnit(c *Contract) (u *Unit) {
 		g := sev.expr(r.Expr)
 		st.assume(g.T)
 	}
+	// object invariants
+	if c.Closure < 0 && fd.Recv != nil && len(fd.Recv.List) > 0 && len(fd.Recv.List[0].Names) > 0 {
+		if ro := info.Defs[fd.Recv.List[0].Names[0]]; ro != nil {
+			if key := typeInvKey(ro.Type()); key != "" && e.cs.TypeInvs[key] != nil {
+				u.selfInvKey = key
+				u.recvObj, _ = ro.(*types.Var)
+				if rv, ok := st.env[ro]; ok && rv.K == vScalar {
+					st.assume(u.typeInvTerm(st, e.cs.TypeInvs[key], u.namedByKey(key), rv.T))
+				}
+			}
+		}
+	}
+	u.assumeTypeInvs(st)
 	u.emitSat(st, "vacuity/pre", "preconditions, type facts and axioms are jointly satisfiable")
 	u.entry = st.clone()
 	ctl := &Ctl{brk: map[string]func(*State){}, cont: map[string]func(*State){}}
